@@ -124,6 +124,12 @@ CLAIMED = {
             "see, yields a stale hit and a solver counterexample.", "4/C26",
             "bounded exploration of operation sequences on the real objects with symbolic arguments (cachetools running on structural symbolic keys) + z3 per compared entry; float replay",
             "Sequences of length <= 3; aliasing enumerated per argument group rather than decided by the solver."),
+    "C14": ("proof", "Every System evaluation (vectors, matrices, energies, impact quantities) on a symbolic state is compared entry by entry with the dense "
+            "accumulation of the contributions' own outputs at their DOF index sets, on three seeded system families built and assembled through the real "
+            "API; index sets partition their ranges; assemble() twice leaves layout and evaluations unchanged; add/remove/pop/extend histories keep "
+            "names unique and the registry exact.", "4/C14",
+            "symbolic execution of the real assembly / scatter code on z3-term states (equalities decided by the symbolic normal form / z3) + bounded exhaustive registry histories; float cross-check on the unshimmed code",
+            "Bounded: three system families, registry histories of length <= 3 (quick) / 4; PD/PID controllers are exercised in C08 instead."),
 }
 
 NOT_APPLICABLE = {
